@@ -246,6 +246,16 @@ RECURSIVE Globals(_, _, _)
 Globals(gs, j, c) == IF j > Len(gs) THEN c.vars
                      ELSE Globals(gs, j + 1, [c EXCEPT !.vars = Bind(c.vars, gs[j].name, BindingValue(gs[j], c))])
 
+(* 11.4 / 2.6.2: of several top-level bindings of one name the one with the highest import precedence is THE binding.  *)
+(* Evaluation order of the winners: those of imported modules first (the generators keep them free of variable          *)
+(* references), then the principal module's in document order.                                                            *)
+EffectiveGlobals(ss, modprec) ==
+  LET gs == ss.gvars
+      wins(j) == \A k \in 1..Len(gs) : (k # j /\ gs[k].name = gs[j].name) => modprec[gs[k].mod] < modprec[gs[j].mod]
+      winners == SelectSeq([j \in 1..Len(gs) |-> j], wins) IN
+  [j \in 1..Len(SelectSeq(winners, LAMBDA x : gs[x].mod # 1)) |-> gs[SelectSeq(winners, LAMBDA x : gs[x].mod # 1)[j]]]
+  \o [j \in 1..Len(SelectSeq(winners, LAMBDA x : gs[x].mod = 1)) |-> gs[SelectSeq(winners, LAMBDA x : gs[x].mod = 1)[j]]]
+
 (* dev names deviations from XSLT 1.0 that a trace spec may want to RECOGNISE (never accept):              *)
 (*   zeroAnyEmpty - xsl:number level="any" produces nothing instead of "0" when no node is counted (7.7)    *)
 (* Strict is XSLT 1.0.                                                                                        *)
@@ -259,7 +269,7 @@ TransformWith(ss, F0, dev) ==
       c0 == [f |-> F, n |-> root, pos |-> 1, size |-> 1, vars |-> <<>>, cur |-> root, keys |-> ss.keys,
              ss |-> ss, entries |-> Entries(tree), modprec |-> ModPrecs(tree), gv |-> <<>>, dev |-> dev, mode |-> <<>>, rule |-> NoRule,
              docs |-> ss.docs]
-      gv == Globals(ss.gvars, 1, c0)
+      gv == Globals(EffectiveGlobals(ss, c0.modprec), 1, c0)
       c1 == [c0 EXCEPT !.gv = gv, !.vars = gv]
       items == Normalize(ApplyTo(<<root>>, 1, [mode |-> "", passed |-> <<>>], c1))
   IN IF HasBad(items) THEN [bad |-> BadWhy(items), items |-> <<>>] ELSE [bad |-> "", items |-> items]
